@@ -7,31 +7,52 @@
 (*   dec   {via, tok, out, v}      tok decoded into the variable: out is     *)
 (*                                 "ok" / "err" / "panic: ...", v the value  *)
 (*                                 the variable holds afterwards             *)
-(*   rt    {via, v, enc, out, back} v encoded (enc, informational) and       *)
+(*                                 inmut: the decoder changed the bytes it   *)
+(*                                 was given (never allowed); keep: the      *)
+(*                                 harness holds on to the value as returned *)
+(*   rt    {via, v, enc, out, back, keep} v encoded (enc, informational) and *)
 (*                                 decoded again into the variable           *)
+(*   fresh {cur}                   a new destination variable of the type    *)
+(*   final {vals}                  everything kept (decoded values, encoder  *)
+(*                                 outputs), exactly as returned, rendered   *)
+(*                                 now: it must still be what was reported   *)
+(*                                 (no result is a view of a buffer that     *)
+(*                                 the caller or a later call writes to)     *)
 (* Values: integers [neg, d] (d = canonical decimal digits; binary digits    *)
 (* for the hex types), byte lists as lists of small integers.                *)
 EXTENDS Scalars, Json, IOUtils
 
 TraceLog == ndJsonDeserialize(IOEnv.VERIF_TRACE)
 
-VARIABLES l
-tvars == <<allvars, l>>
+VARIABLES l,
+          held      \* what the kept results were reported to be, in order
+tvars == <<allvars, l, held>>
 
 TraceInit ==
-  /\ l = 1 /\ ty = "none" /\ cur = Int0
+  /\ l = 1 /\ ty = "none" /\ cur = Int0 /\ held = <<>>
   /\ last = [op |-> "init"]
 
 TReset(e) ==
-  /\ ty' = e.ty /\ cur' = e.cur /\ last' = [op |-> "reset"]
+  /\ ty' = e.ty /\ cur' = e.cur /\ held' = <<>> /\ last' = [op |-> "reset"]
+
+TFresh(e) ==
+  /\ cur' = e.cur /\ ty' = ty /\ last' = [op |-> "fresh"] /\ UNCHANGED held
 
 TDec(e) ==
+  /\ e.inmut = FALSE                      \* a decoder does not write into its argument
   /\ DecOK(ty, e.tok, cur, e.out, e.v)
   /\ cur' = e.v /\ ty' = ty /\ last' = [op |-> "dec"]
+  /\ held' = IF e.keep THEN Append(held, e.v) ELSE held
 
 TRt(e) ==
   /\ RtOK(e.out, e.v, e.back)
   /\ cur' = e.back /\ ty' = ty /\ last' = [op |-> "rt"]
+  /\ held' = IF e.keep THEN held \o <<e.enc, e.back>> ELSE held
+
+TFinal(e) ==
+  /\ Len(e.vals) = Len(held)
+  /\ \A i \in 1..Len(held) : e.vals[i] = held[i]
+  /\ UNCHANGED <<ty, cur, held>> /\ last' = [op |-> "final"]
 
 Consume ==
   /\ l <= Len(TraceLog) /\ l' = l + 1
@@ -39,6 +60,8 @@ Consume ==
        CASE e.ev = "reset" -> TReset(e)
          [] e.ev = "dec"   -> TDec(e)
          [] e.ev = "rt"    -> TRt(e)
+         [] e.ev = "fresh" -> TFresh(e)
+         [] e.ev = "final" -> TFinal(e)
          [] OTHER -> FALSE
 
 TraceNext == Consume
@@ -50,5 +73,5 @@ Mark == TLCSet(1, IF l > TLCGet(1) THEN l ELSE TLCGet(1))
 Accepted == PrintT(<<"MARK", TLCGet(1), Len(TraceLog)>>) /\ TLCGet(1) = Len(TraceLog) + 1
 
 NoVals(t) == {}
-TView == <<ty, cur, l>>
+TView == <<ty, cur, l, held>>
 =============================================================================
